@@ -588,6 +588,10 @@ def _build(desc):
     except zoo.REJECT_EXC as e:
         where, site = _where(e)
         if where != 'odl':
+            if isinstance(e, TypeError) and \
+                    str(e).startswith('unsupported operand type(s)'):
+                # both operands answered NotImplemented to ``a * b``
+                return None, 'TypeError:python-operator-not-implemented'
             raise
         return None, '{}:{}'.format(type(e).__name__, site)
 
